@@ -60,7 +60,7 @@ ASSUMPTIONS = ['Python int = Z, // and % = Z.div / Z.modulo (floor)',
                'Frame.drop with a column key on a Frame without blocks is deliberately rejected (IndexError) and not generated']
 TRUSTED = ['NumPy broadcasting of an unlabelled value to the selection shape (np.broadcast_to in the harness)',
            'util.dtype_from_element called directly to obtain the dtype of the assigned value (input of the assign model)']
-EXHAUSTIVE = {'quick': False, 'thorough': False}
+EXHAUSTIVE = {'quick': False, 'thorough': True}
 
 # ---------------------------------------------------------------------------------------------- regenerated decision table
 def generate(repo):
@@ -367,8 +367,8 @@ def frame_universe(ctx, extra_pools=()):
                     level = 'full'
                 elif pname == 'I' and i in (0, len(lays) - 1):
                     level = 'mid'
-                elif pname == 'S' and i % 2:
-                    continue
+                elif (pname == 'S' or (pname == 'I' and m == 4)) and i % 2:
+                    continue            # quick tier: every other layout of the widest frames (the thorough tier takes all)
                 else:
                     level = 'masks'
                 yield pname, dts[:m], layout, level
@@ -621,6 +621,8 @@ def few_layouts(dts):
 def label_frames(ctx, ms=(2, 3, 4)):
     for pname in ('I', 'M'):
         for m in ms:
+            if ctx.tier == 'quick' and pname == 'M' and m != max(ms):
+                continue
             dts = POOLS[pname][:m]
             for layout in few_layouts(dts):
                 yield pname, dts, layout
@@ -652,23 +654,23 @@ def form_call(f, iface, form, rk, ck, rlabels, clabels, reorder=False):
     raise ValueError(form)
 
 
-def labelled_value(kind, f, rps, cps, rot):
+def labelled_value(kind, f, rps, cps, partial):
     """a Series / Frame value whose labels partially overlap the target's, reordered, plus one foreign label;
     returns (python value, Coq aval)"""
     import static_frame as sf
     rl = [f.index.values[i] for i in rps]
     cl = [f.columns.values[j] for j in cps]
     if kind == 'series_rows':
-        idx = (rl[1:][::-1] if rot % 2 else rl[::-1]) + ['q']
+        idx = (rl[1:][::-1] if partial and len(rl) > 1 else rl[::-1]) + ['q']
         vals = [500 + i for i in range(len(idx))]
         return sf.Series(vals, index=idx), f'(ARows {lit.vlist(idx)} {lit.vlist(vals)})'
     if kind == 'series_cols':
-        idx = (cl[1:][::-1] if rot % 2 else cl[::-1]) + ['q']
+        idx = (cl[1:][::-1] if partial and len(cl) > 1 else cl[::-1]) + ['q']
         vals = [600 + i for i in range(len(idx))]
         return sf.Series(vals, index=idx), f'(ACols {lit.vlist(idx)} {lit.vlist(vals)})'
     if kind in ('frame', 'frame_norows', 'frame_nocols'):
-        ridx = (rl[1:][::-1] if rot % 2 and len(rl) > 1 else rl[::-1]) + ['q']
-        cidx = (cl[::-1] if rot % 3 or len(cl) < 2 else cl[:-1][::-1]) + ['k']
+        ridx = (rl[1:][::-1] if partial and len(rl) > 1 else rl[::-1]) + ['q']
+        cidx = (cl[:-1][::-1] if partial and len(cl) > 1 else cl[::-1]) + ['k']
         if kind == 'frame_norows':
             ridx = ['q', 'p']
         if kind == 'frame_nocols':
@@ -684,6 +686,26 @@ def container_aval(v):
     if isinstance(v, sf.Series):
         return lit.vlist(lit.labels(v.index)), lit.vlist(lit.array_vals(v.values))
     raise ValueError
+
+
+def _labelled_case(ctx, f, oflit, pname, m, nrows, layout, vkind, rk, ck, rps, cps, form, fn, text, partial, fill):
+    # the value is aligned to the target by label; rows in key order, columns in ascending order
+    value, aval = labelled_value(vkind, f, rps, sorted(cps), partial)
+    before = snapshot(f)
+    out, err = call(lambda: fn()(value, fill_value=fill[0]))
+    after = snapshot(f)
+    tags = assign_tags(form, ck, rk, m, form == 'iloc' and ck.kind == 'mask')
+    tags['value'] = vkind
+    if vkind in ('frame_norows', 'frame_nocols') and 'finding' not in tags:
+        tags['finding'] = F_DISJOINT
+    ctx.count(f'assign:value={vkind}', f'assign:form={form}', 'outcome:' + ('ok' if err is None else lit.err_class(err)))
+    sterm = f'S_frame_assign_ok {oflit} {rk.ocoq()} {ck.ocoq()} {aval} {fill[1]} {oframe_lit(out)}' if err is None else 'false'
+    yield Case(f'api:frame.assign.{form}(labelled)',
+               {'pool': pname, 'columns': m, 'rows': nrows, 'layout': zoo.layout_str(layout), 'call': text + '(value, fill_value=%r)' % (fill[0],),
+                'value': repr(value.to_pairs() if hasattr(value, 'to_pairs') else value), 'row_key': rk.desc(), 'column_key': ck.desc(),
+                'observed': 'raises ' + type(err).__name__ if err is not None else out.values.tolist()},
+               s=sterm, py_fail=None if before == after else 'receiver changed by ' + text,
+               tags=tags)
 
 
 def assign_labelled_cases(ctx):
@@ -722,27 +744,16 @@ def assign_labelled_cases(ctx):
                 if sel is None:
                     continue
                 rot += 1
-                if ctx.tier == 'quick' and rot % 2 and form != 'getitem' and vkind in ('series_rows', 'series_cols', 'frame'):
-                    continue
                 fn, text = sel
-                # the value is aligned to the target in KEY order for rows and in ascending order for columns; labels decide
-                value, aval = labelled_value(vkind, f, rps, sorted(cps), rot)
-                fill = (np.nan, 'VNaN') if rot % 3 else (-1, '(VInt (-1))')
-                before = snapshot(f)
-                out, err = call(lambda: fn()(value, fill_value=fill[0]))
-                after = snapshot(f)
-                tags = assign_tags(form, ck, rk, m, form == 'iloc' and ck.kind == 'mask')
-                tags['value'] = vkind
-                if vkind in ('frame_norows', 'frame_nocols') and 'finding' not in tags:
-                    tags['finding'] = F_DISJOINT
-                ctx.count(f'assign:value={vkind}', f'assign:form={form}', 'outcome:' + ('ok' if err is None else lit.err_class(err)))
-                sterm = f'S_frame_assign_ok {oflit} {rk.ocoq()} {ck.ocoq()} {aval} {fill[1]} {oframe_lit(out)}' if err is None else 'false'
-                yield Case(f'api:frame.assign.{form}(labelled)',
-                           {'pool': pname, 'columns': m, 'rows': nrows, 'layout': zoo.layout_str(layout), 'call': text + '(value, fill_value=%r)' % (fill[0],),
-                            'value': repr(value.to_pairs() if hasattr(value, 'to_pairs') else value), 'row_key': rk.desc(), 'column_key': ck.desc(),
-                            'observed': 'raises ' + type(err).__name__ if err is not None else out.values.tolist()},
-                           s=sterm, py_fail=None if before == after else 'receiver changed by ' + text,
-                           tags=tags)
+                # variants: (some target labels missing from the value, explicit fill_value) / (all present, default fill);
+                # the thorough tier takes the full product
+                variants = [(True, (-1, '(VInt (-1))')), (False, (np.nan, 'VNaN'))]
+                if ctx.tier == 'thorough':
+                    variants += [(True, (np.nan, 'VNaN')), (False, (-1, '(VInt (-1))'))]
+                elif form != 'getitem' and vkind in ('series_rows', 'series_cols', 'frame'):
+                    variants = variants[rot % 2:][:1]
+                for partial, fill in variants:
+                    yield from _labelled_case(ctx, f, oflit, pname, m, nrows, layout, vkind, rk, ck, rps, cps, form, fn, text, partial, fill)
         # ---- apply: the function sees the selection, its result is assigned back aligned by label
         funcs = [('double', lambda x: x * 2), ('reversed', lambda x: x.iloc[::-1] if hasattr(x, 'iloc') else x),
                  ('tail', lambda x: x.iloc[1:] if hasattr(x, 'iloc') else x)]
@@ -963,7 +974,7 @@ def astype_cases(ctx):
     nrows = 3
     for pname, dts, layout, level in frame_universe(ctx, extra_pools=('F',)):
         m = len(dts)
-        if pname == 'S' and ctx.tier == 'quick':
+        if ctx.tier == 'quick' and (pname == 'S' or (pname == 'F' and all(w == 1 for w, _ in layout))):
             continue
         f = build_frame(dts, nrows, layout)
         flit, oflit = mframe_lit(f), oframe_lit(f)
@@ -1264,6 +1275,8 @@ def malformed_cases(ctx):
     nrows = 3
     for pname, dts, layout in label_frames(ctx, ms=(2, 4)):
         m = len(dts)
+        if ctx.tier == 'quick' and layout != few_layouts(dts)[1]:
+            continue
         f = build_frame(dts, nrows, layout)
         oflit = oframe_lit(f)
         bad_col = [K('int', m), K('int', -m - 1), K('list', [0, m]), K('list', [-m - 1]), K('mask', [True] * (m + 1)), K('slice', (None, None, 0))]
